@@ -313,7 +313,45 @@ func c12(c *core.Ctx) {
 		set := ssax.Backward(as.Val)
 		fromOld := ssax.AnyIn(set, isMsgExp)
 		c.Check(fromOld, "C12.R3", key+"|from-received", ipos(c, st), "computed from the received interval", "the forwarded interval is not computed from the received Message Expiry Interval (e.g. the elapsed time or the queue deadline is forwarded)")
-		bo, isSub := as.Val.(*ssa.BinOp)
+		stripConv := func(v ssa.Value) ssa.Value {
+			for {
+				if cv, isC := v.(*ssa.Convert); isC {
+					v = cv.X
+					continue
+				}
+				return v
+			}
+		}
+		bo, isSub := stripConv(as.Val).(*ssa.BinOp)
+		if isSub && bo.Op == token.SUB && !isMsgExp(bo.X) && isMsgExp(stripConv(bo.X)) {
+			// signed form: remaining := int64(interval) - waited; the result is stored only if it is positive.
+			// A guard "remaining >= 0" (the negation of "remaining < 0") lets 0 through: interval 0 = no expiry.
+			fromOld = true
+			weak, strong := false, false
+			for _, g := range as.guards() {
+				gb, ok := g.Cond.(*ssa.BinOp)
+				if !ok {
+					continue
+				}
+				k, isC := constInt(gb.Y)
+				if !isC || !ssax.AnyIn(ssax.Backward(gb.X), func(v ssa.Value) bool { return v == ssa.Value(bo) }) {
+					continue
+				}
+				switch op := cmpUnder(gb, g.Branch); {
+				case (op == token.GTR && k == 0) || (op == token.GEQ && k == 1):
+					strong = true
+				case (op == token.GEQ && k == 0) || (op == token.GTR && k == -1):
+					weak = true
+				}
+			}
+			if strong {
+				c.OK("C12.R3", key+"|no-underflow-no-zero", ipos(c, st), "signed remainder stored only when positive")
+				subOK = true
+			} else if weak {
+				c.Violation("C12.R3", key+"|no-underflow-no-zero", ipos(c, st), "the remaining lifetime 'interval − waited' is stored whenever it is not negative: when the message has waited exactly its interval the forwarded Message Expiry Interval is 0, which means 'never expires'")
+				subOK = true
+			}
+		}
 		if isSub && bo.Op == token.SUB && isMsgExp(bo.X) {
 			// waited derives from time elapsed since Elem.At
 			wset := ssax.BackwardOpt(bo.Y, func(call *ssa.Call) bool {
@@ -344,7 +382,7 @@ func c12(c *core.Ctx) {
 			}
 			// no underflow: guarded by waited < old
 			okG := false
-			for _, g := range ssax.Guards(as.At) {
+			for _, g := range as.guards() {
 				gb, ok := g.Cond.(*ssa.BinOp)
 				if !ok {
 					continue
